@@ -322,6 +322,8 @@ pub fn hostile_strategy(parser: ParserId) -> BoxedStrategy<Vec<u8>> {
         Just("18446744073709551615".to_string()),
         Just("18446744073709551616".to_string()),
         Just("9223372036854775807".to_string()),
+        Just("9223372036854775808".to_string()),
+        Just("9223372036854775809".to_string()),
         Just("4294967296".to_string()),
         Just("4294967295".to_string()),
         Just("2147483647".to_string()),
@@ -374,6 +376,25 @@ pub fn hostile_strategy(parser: ParserId) -> BoxedStrategy<Vec<u8>> {
                 0u8..9,
             )
                 .prop_map(move |(f, nf, tail, mode)| {
+                    if mode == 4 && tail.first().map_or(false, |b| b % 2 == 0) {
+                        // justice property sizes that are huge, or whose sum passes 2^64
+                        let t = |k: usize| tail.get(k).copied().unwrap_or(0);
+                        let sizes: Vec<String> = match t(1) % 4 {
+                            0 => vec!["18446744073709551615".into(), "1".into()],
+                            1 => vec!["9223372036854775808".into(), "0".into(), "9223372036854775808".into()],
+                            2 => vec![f[0].clone(), f[1].clone()],
+                            _ => vec!["18446744073709551614".into(), "2".into(), "0".into()],
+                        };
+                        let mut s = format!("{} 0 0 0 0 0 0 0 {} 0\n", if binary { "aig" } else { "aag" }, sizes.len());
+                        for z in &sizes {
+                            s.push_str(z);
+                            s.push('\n');
+                        }
+                        for _ in 0..t(2) % 4 {
+                            s.push_str("0\n");
+                        }
+                        return s.into_bytes();
+                    }
                     if mode >= 6 && binary {
                         // delta codes of every length 1..=11 with arbitrary payload, in a file that is
                         // otherwise fine: one gate after I inputs
